@@ -83,4 +83,10 @@ Classify(method, fields) ==
               chunked |-> te.chunked, gzip |-> te.gzip, expect |-> expect,
               ctype |-> CType(ct), cookies |-> CookieMap(ck.pairs),
               headers |-> SelectSeq(fields, LAMBDA f : ~SameName(f[1], N_CT) /\ ~SameName(f[1], N_EXPECT) /\ ~SameName(f[1], N_TE))]
+
+\* A coding that differs from a known one only in letter case is outside what the library documents: refusing it is what
+\* the pinned code does, recognising it (codings are case-insensitive in RFC 7230) would be as good -- but nothing else:
+\* a message that is accepted must then be framed as the coding says, not as if the field were absent.
+LowerTE(fields) == [i \in 1..Len(fields) |-> IF SameName(fields[i][1], N_TE) THEN <<fields[i][1], LowerSeq(fields[i][2])>> ELSE fields[i]]
+ClassifyLenient(method, fields) == Classify(method, LowerTE(fields))
 ====
